@@ -8,6 +8,8 @@ import Tw.Proofs.HuffmanStream
 import Tw.Model.HuffmanFreq
 import Tw.Proofs.HuffmanFreq
 import Tw.Proofs.HuffmanFreqInner
+import Tw.Proofs.HuffmanFreqLeaf
+import Tw.Proofs.HuffmanRefTree
 import Tw.Gen.Huffman
 
 /-!
@@ -142,6 +144,12 @@ theorem decompress_capacity_iff (t : Table) (h : WellFormed t) (input : List UIn
       ∀ cap' out, decompress t input cap' = .ok out → cap < out.length :=
   Tw.Huffman.decompress_capacity_iff t h input cap
 
+/-- `decompressFast` (the remaining capacity carried along instead of `out.length` at every byte) is a
+faster evaluation of the same function, for every table, input and capacity — for drivers whose sweeps
+are dominated by runaway decodings into large buffers. -/
+theorem decompressFast_is_decompress (t : Table) (input : List UInt8) (cap : Nat) :
+    decompressFast t input cap = decompress t input cap := decompressFast_eq t input cap
+
 /-! ## (4) agreement with the C++ reference (`huffman.cpp`, modelled in `Tw/Model/HuffmanRef.lean`) -/
 
 /-- The reference-compatible output is byte-identical to what `CHuffman::Compress` writes (32-bit
@@ -178,9 +186,10 @@ theorem reference_is_stricter_witness :
 /-! ## tables built from arbitrary frequency vectors -/
 
 /-- The full statement for `Huffman::from_frequencies`: every vector of 256 `u32` frequencies yields a
-table to which all of the above applies.  **Not provable**: `from_frequencies` panics when the
-Huffman tree is deeper than 24 (open finding D16, e.g. all-zero frequencies — model and
-implementation both `panic` on the replay in `corpus/huffman/finding-d16.txt`; `C07_full_witness`). -/
+table (to which all of the above then applies, see `fromFrequencies_tables_partial`).  **Not
+provable**: `from_frequencies` panics when the Huffman tree is deeper than 24 (open finding D16,
+e.g. all-zero frequencies — model and implementation both `panic` on the replay in
+`corpus/huffman/finding-d16.txt`; `C07_full_witness`). -/
 def C07_full : Prop :=
   ∀ f : List Nat, f.length = 256 → (∀ x ∈ f, x < 2 ^ 32) →
     ∃ t, fromFrequencies f = .ok t ∧ WellFormed t ∧ LutOk t
@@ -204,38 +213,71 @@ theorem C07_full_witness : ¬ C07_full := by
   rw [fromFrequencies_zero_panics] at ht
   cases ht
 
-/-- Proved for **every** frequency vector on which `from_frequencies` returns (no further hypothesis):
-the table has 513 entries, every inner node's children have smaller indices, and therefore the
-decoder with that table terminates on every input, its result at a smaller capacity is the result at
-a larger one cut down, and it reports the capacity error exactly when the output does not fit
-(output ≤ capacity holds for any table: `decompress_within_capacity`). -/
-theorem fromFrequencies_decoder_total (f : List Nat) (t : Table) (hok : fromFrequencies f = .ok t) :
-    t.size = NUM_NODES
-    ∧ (∀ input cap, decompress t input cap ≠ .diverge)
-    ∧ (∀ input cap' cap, cap' ≤ cap → decompress t input cap' = (decompress t input cap).trunc cap')
-    ∧ (∀ input cap, decompress t input cap = .capacity ↔
-        ∀ cap' out, decompress t input cap' = .ok out → cap < out.length) :=
-  have h := fromFrequencies_inner f t hok
-  ⟨h.1, fun input cap => decompress_terminates_of_childLt t h.2 input cap,
-   fun input cap' cap hc => decompress_trunc_of_childLt t h.2 input cap' cap hc,
-   fun input cap => decompress_capacity_iff_of_childLt t h.2 input cap⟩
+/-- **Every table `Huffman::from_frequencies` returns is well-formed** (whenever it returns, i.e. does
+not hit D16): the merge loop builds a forest whose inner nodes have two different children with
+smaller indices, in which every node but the root is the child of exactly one inner node; the
+iterative traversal (explicit stack, direction bits) is the recursive one and writes into every
+symbol's entry the code of the path from the root to that symbol, of length 1..24; paths are unique,
+so the reference's lookup table is consistent with the stored lengths. -/
+theorem fromFrequencies_wellFormed (f : List Nat) (t : Table) (hok : fromFrequencies f = .ok t) :
+    WellFormed t ∧ LutOk t :=
+  ⟨Tw.Huffman.fromFrequencies_wellFormed f t hok, Tw.Huffman.fromFrequencies_lutOk f t hok⟩
 
-/-- For the remaining clauses: for every frequency vector on which the construction succeeds with a table
-satisfying the two decidable predicates (the driver decides them for every sampled vector and
-reports `ok-but-not-wellformed` otherwise), the codec with that table is lossless, predicts its
-length, is total and bounded, and agrees with the reference algorithms run on the same table. -/
-theorem fromFrequencies_tables_partial (f : List Nat) (t : Table) (_hok : fromFrequencies f = .ok t)
-    (h : WellFormed t) (hl : LutOk t) :
+/-- Hence the whole property for tables built from arbitrary frequency vectors, under exactly the
+hypothesis that excludes D16 (`from_frequencies` returns): lossless in both output forms, the
+streaming (Rust-form) compressor computes the spec form, the decoder is total, bounded and
+capacity-exact, `compress_bug` is byte-identical to the reference's `Compress`, and whatever the
+reference's `Decompress` decodes this decoder decodes to the same bytes. -/
+theorem fromFrequencies_tables_partial (f : List Nat) (t : Table) (hok : fromFrequencies f = .ok t) :
     (∀ bug xs cap, xs.length ≤ cap → decompress t (compress t bug xs) cap = .ok xs)
+    ∧ (∀ bug xs cap, compressStreamInto t bug xs cap =
+        if (compress t bug xs).length ≤ cap then .ok (compress t bug xs) else .capacity)
     ∧ (∀ input cap, decompress t input cap ≠ .diverge)
     ∧ (∀ input cap out, decompress t input cap = .ok out → out.length ≤ cap)
+    ∧ (∀ input cap' cap, cap' ≤ cap → decompress t input cap' = (decompress t input cap).trunc cap')
     ∧ (∀ xs, compress t true xs = refCompress t xs)
-    ∧ (∀ fuel input cap out, refDecompress t fuel input cap = .ok out → decompress t input cap = .ok out) :=
+    ∧ (∀ fuel input cap out, refDecompress t fuel input cap = .ok out →
+        decompress t input cap = .ok out) :=
+  have h := Tw.Huffman.fromFrequencies_wellFormed f t hok
+  have hl := Tw.Huffman.fromFrequencies_lutOk f t hok
   ⟨fun bug xs cap hc => decompress_compress t h bug xs cap hc,
+   fun bug xs cap => compressStreamInto_eq t h bug xs cap,
    fun input cap => decompress_terminates t h input cap,
    fun input cap out ho => decompress_bound t input cap out ho,
+   fun input cap' cap hc => decompress_trunc t h input cap' cap hc,
    fun xs => (refCompress_eq_compress_bug t h xs).symm,
    fun fuel input cap out hr => refDecompress_agrees t h hl fuel input cap out hr⟩
+
+/-! ## the reference's own tree (`ConstructTree`, `Setbits_r`; model `refConstruct`) -/
+
+/-- For every frequency vector on which the reference's `int` arithmetic cannot overflow
+(`Σ f + 1 < 2^31`) and `from_frequencies` returns, the table it returns **is** the reference's tree
+(same inner nodes, every symbol the same `(bits, length)`); with the theorems of section (4) the codec
+is then byte-compatible with the reference for that table, not only for the built-in one.  The
+hypothesis is exactly the negation of the classifier of finding D16b. -/
+theorem fromFrequencies_is_reference_tree_partial (f : List Nat) (t : Table)
+    (hok : fromFrequencies f = .ok t) (hsum : f.sum + 1 < 2147483648) :
+    (refConstruct f).toTable = t := fromFrequencies_eq_refConstruct f t hok hsum
+
+/-- the shipped frequencies (regenerated from `huffman/data/frequencies`) satisfy the hypothesis -/
+theorem shipped_frequencies_in_int_range : Tw.Gen.Huffman.frequencies.sum + 1 < 2147483648 := by
+  decide +kernel
+
+/-- the full statement without the hypothesis — false: D16b -/
+def C07_reference_tree_full : Prop :=
+  ∀ (f : List Nat) (t : Table), f.length = 256 → (∀ x ∈ f, x < 2 ^ 32) →
+    fromFrequencies f = .ok t → (refConstruct f).toTable = t
+
+/-- **D16b in the model**: byte 0 with frequency `2^32 - 1` (−1 in the reference's `int`), every other
+byte 2.  The Rust merges EOF with byte 255 first, the reference merges byte 0 with EOF; whatever table
+`from_frequencies` returns, it is not the reference's tree. -/
+theorem reference_tree_signed_frequency_witness (t : Table)
+    (hok : fromFrequencies d16bFreqs = .ok t) : (refConstruct d16bFreqs).toTable ≠ t :=
+  d16b_witness t hok
+
+theorem reference_tree_first_merge_witness :
+    node (rustForest d16bFreqs) 257 = (256, 255)
+      ∧ node (refConstruct d16bFreqs).nodes 257 = (0, 256) := d16b_first_merge
 
 /-! ## non-vacuity -/
 
